@@ -160,13 +160,13 @@ def gt_sx(t) -> list:
             out.extend(gt_sx(s))
         return out
     if isinstance(t, T.OffsetTransformation):
-        return [['offset', [[c, ptgen.num_frac(v)] for c, v in t._offsets.items()]]]
+        return [['offset', [[ptgen.chan_atom(c), ptgen.num_frac(v)] for c, v in t._offsets.items()]]]
     if isinstance(t, T.ScalingTransformation):
-        return [['scaling', [[c, ptgen.num_frac(v)] for c, v in t._factors.items()]]]
+        return [['scaling', [[ptgen.chan_atom(c), ptgen.num_frac(v)] for c, v in t._factors.items()]]]
     if isinstance(t, T.ParallelChannelTransformation):
-        return [['parallel', [[c, ptgen.num_frac(v)] for c, v in t._channels.items()]]]
+        return [['parallel', [[ptgen.chan_atom(c), ptgen.num_frac(v)] for c, v in t._channels.items()]]]
     if isinstance(t, T.LinearTransformation):
-        return [['linear', list(t._input_channels), list(t._output_channels),
+        return [['linear', [ptgen.chan_atom(c) for c in t._input_channels], [ptgen.chan_atom(c) for c in t._output_channels],
                  [[ptgen.num_frac(x) for x in row] for row in t._matrix.tolist()]]]
     raise core.MachineryError('cannot serialise transformation %r' % (t,))
 
@@ -227,6 +227,13 @@ VOLTS = [F(k, 8) for k in range(-16, 17)]
 FACTORS = [F(1, 2), F(2), F(-1), F(1, 4), F(3, 2), F(-1, 2), F(0), F(1)]
 MATVALS = [F(0), F(1), F(-1), F(1, 2), F(2), F(-1, 2)]
 NEWCH = ['P', 'Q', 'R']
+# qupulse: ChannelID = Union[str, int] -- the channels a transformation ADDS may as well be integers (incl. 0); they travel
+# to Lean as the atoms `#k` (ptgen.chan_atom)
+NEWCH_INT = [0, 1, 7]
+
+
+def _newch(rng) -> list:
+    return list(NEWCH_INT) if rng.random() < 0.35 else list(NEWCH)
 
 
 def _fs(x: F) -> str:
@@ -263,12 +270,16 @@ def random_gt(rng, chans: List[str], kind: Optional[str] = None):
     if k == 'scaling':
         return ['scaling', [[c, _fs(rng.choice(FACTORS))] for c in sub()]]
     if k == 'parallel':
-        return ['parallel', [[c, _fs(rng.choice(VOLTS))] for c in rng.sample(NEWCH, rng.choice([1, 2]))]]
+        return ['parallel', [[c, _fs(rng.choice(VOLTS))] for c in rng.sample(_newch(rng), rng.choice([1, 2]))]]
     if k == 'parallel_over':
-        return ['parallel', [[c, _fs(rng.choice(VOLTS))] for c in sub() + rng.sample(NEWCH, rng.choice([0, 1]))]]
+        return ['parallel', [[c, _fs(rng.choice(VOLTS))] for c in sub() + rng.sample(_newch(rng), rng.choice([0, 1]))]]
     if k.startswith('linear'):
         n_in, n_out = int(k[6]), int(k[7])
-        ins = rng.sample(chans, n_in)
+        # LinearTransformation sorts its channel ids: it cannot mix integer and string ids, so it stays on the strings
+        schans = [c for c in chans if isinstance(c, str)]
+        if len(schans) < n_in:
+            return ['offset', [[c, _fs(rng.choice(VOLTS))] for c in sub()]]
+        ins = rng.sample(schans, n_in)
         rest = [c for c in chans if c not in ins]
         pool = [c for c in ins + NEWCH if c not in rest]
         outs = rng.sample(pool, n_out)
@@ -283,7 +294,7 @@ def random_gt(rng, chans: List[str], kind: Optional[str] = None):
         if gt_pf28([k, parts + [p]]) and rng.random() < 0.85:
             continue
         parts.append(p)
-        cur = sorted(gt_out_chans(p, set(cur)))
+        cur = sorted(gt_out_chans(p, set(cur)), key=ptgen.chan_atom)
     if not parts:
         parts = [['identity']]
     return [k, parts]
@@ -399,7 +410,7 @@ def play_samples(prog, chans: List[str], grid: List[F]):
                 pf04.add(i)
         for ch in chans:
             try:
-                arr = wf.get_sampled(ch, times)
+                arr = wf.get_sampled(ptgen.chan_of_atom(ch), times)
                 for (t, i), x in zip(pts, arr):
                     samples[ch][i] = 'nan' if math.isnan(x) else F(float(x))
             except Exception as exc:  # noqa
@@ -421,7 +432,7 @@ def observe_program(prog, grid: Optional[List[F]], rng=None, with_wf=False) -> d
     except Exception as exc:  # noqa -- e.g. a LinearTransformation whose input channel a piece does not define
         return {'status': 'error', 'error': core.classify_exception(exc), 'msg': 'defined_channels: ' + str(exc)[:160]}
     uniform = all(s == sets[0] for s in sets)
-    o['chans'] = sorted(sets[0]) if uniform else 'nonuniform'
+    o['chans'] = sorted(ptgen.chan_atom(c) for c in sets[0]) if uniform else 'nonuniform'
     try:
         win = prog.get_measurement_windows()
         o['windows'] = sorted((name, F(float(b)), F(float(l))) for name, (bs, ls) in win.items()
@@ -445,7 +456,7 @@ def observe_program(prog, grid: Optional[List[F]], rng=None, with_wf=False) -> d
             ws = {}
             for ch in o['chans']:
                 try:
-                    arr = wf.get_sampled(ch, times)
+                    arr = wf.get_sampled(ptgen.chan_of_atom(ch), times)
                     ws[ch] = ['nan' if math.isnan(x) else F(float(x)) for x in arr]
                 except Exception as exc:  # noqa
                     ws[ch] = 'error:' + core.classify_exception(exc)
@@ -602,7 +613,8 @@ def work_options(desc: dict) -> Optional[dict]:
     if desc.get('opts') is not None:
         opts = desc['opts']
     elif base['status'] == 'ok':
-        opts = option_sets(rng, nodes, base['chans'], desc.get('n_gt', 2), desc.get('max_all', 6), desc.get('n_random', 8))
+        opts = option_sets(rng, nodes, [ptgen.chan_of_atom(c) for c in base['chans']] if isinstance(base['chans'], list) else base['chans'],
+                           desc.get('n_gt', 2), desc.get('max_all', 6), desc.get('n_random', 8))
     elif base['status'] == 'error':
         # malformed stream: a few option sets, only the error class is compared
         opts = option_sets(rng, nodes, None, 0, 3, 3)[:4]
@@ -620,7 +632,7 @@ def work_options(desc: dict) -> Optional[dict]:
             ga = gtapply_line(gt_obj, base['chans'], base['samples'])
         collapsed_in_rev = any(id(n) in rev_inside for n in nodes if in_single(n, pyset))
         rec['opts'].append({'single': [list(c) for c in chosen], 'names': names, 'gt': o['gt'], 'obs': obs, 'line': line,
-                            'gtapply': ga, 'pf11': sorted(pf11_bad_channels(pt, cm_full, o['gt'])),
+                            'gtapply': ga, 'pf11': sorted(ptgen.chan_atom(c) for c in pf11_bad_channels(pt, cm_full, o['gt'])),
                             'pf11_any': bool(ptcheck.pf11_channels(pt, cm_full, frozenset(gt_touched(o['gt'])))),
                             'collapsed_in_rev': collapsed_in_rev,
                             'gt_linear': _has_linear(o['gt']), 'pf28': gt_pf28(o['gt'])})
@@ -1074,7 +1086,7 @@ def _names(pt) -> dict:
     out = {}
     for attr in ('parameter_names', 'measurement_names', 'defined_channels'):
         try:
-            out[attr] = sorted(getattr(pt, attr))
+            out[attr] = sorted(ptgen.chan_atom(x) for x in getattr(pt, attr))
         except Exception as exc:  # noqa
             out[attr] = 'error:' + core.classify_exception(exc)
     return out
@@ -1259,15 +1271,15 @@ def build_helper(kind: str, rng, depth: int):
         body = g.template(rng.randrange(1, depth + 1), chans, env)
         inner = ptgen.build(body)
         if shape != 'plain':
-            inner = ParallelChannelPulseTemplate(inner, {rng.choice(['D', chans[0]]): rng.choice(['0.5', 'v0'])},
+            inner = ParallelChannelPulseTemplate(inner, {rng.choice(['D', chans[0], 0]): rng.choice(['0.5', 'v0'])},
                                                  identifier='pq' if shape == 'par_id' else None)
-        values2 = {rng.choice(['D', 'E', chans[-1]]): rng.choice(['0.25', 'v1', '-1'])}
+        values2 = {rng.choice(['D', 'E', chans[-1], 0, 3]): rng.choice(['0.25', 'v1', '-1'])}       # integer ids are legal
         meta['shape'] = shape
         meta['overlap'] = shape != 'plain' and bool(set(values2) & set(inner.overwritten_channels))
         E = ParallelChannelPulseTemplate(inner, values2)
         helper = lambda: inner.with_parallel_channels(values2)  # noqa
         args = [['arg', ptgen.to_sx(inner)],
-                ['values'] + [[c, ptgen.expr_sx(ExpressionScalar(v))] for c, v in values2.items()]]
+                ['values'] + [[ptgen.chan_atom(c), ptgen.expr_sx(ExpressionScalar(v))] for c, v in values2.items()]]
     elif kind == 'withTimeReversal':
         shape = rng.choice(['plain', 'rev', 'rev', 'rev_id'])
         body = g.template(rng.randrange(1, depth + 1), chans, env)
@@ -1473,8 +1485,8 @@ def _finish_helper(kind, H, E, args, case, meta, seed, rng, arg_names=()) -> dic
         ['mm', 'none'], ['cm'], ['single'], ['grid'] + list(grid)]
     return {'helper': kind, 'meta': meta, 'H': hobs, 'E': eobs, 'grid': grid, 'line': sx(fields),
             'names_H': _names(H), 'names_E': _names(E), 'params': case['params'], 'seed': seed,
-            'pf11_E': sorted(ptcheck.pf11_channels(E, {c: c for c in E.defined_channels})),
-            'pf11_H': sorted(ptcheck.pf11_channels(H, {c: c for c in H.defined_channels})),
+            'pf11_E': sorted(ptgen.chan_atom(c) for c in ptcheck.pf11_channels(E, {c: c for c in E.defined_channels})),
+            'pf11_H': sorted(ptgen.chan_atom(c) for c in ptcheck.pf11_channels(H, {c: c for c in H.defined_channels})),
             'H_sx': sx(ptgen.to_sx(H)), 'E_sx': sx(ptgen.to_sx(E)), 'arg_names': sorted(arg_names)}
 
 
@@ -1878,7 +1890,9 @@ def run(ctx: core.Ctx):
                 'quick / <= 5 thorough, plus the nestings of depth <= 3 over two atoms); per tree the default program and option '
                 'sets: ALL subsets of its sub-templates as to_single_waveform for trees with <= 6 nodes (each node given by '
                 'identifier or by object), 8 random subsets otherwise, global transformations identity / offset / scaling / '
-                'linear 2x2, 2->3, 3->2 / parallel channel / chains alone and combined with a subset; grids = piece boundaries, '
+                'linear 2x2, 2->3, 3->2 / parallel channel / chains alone and combined with a subset (35 % of the parallel channel '
+                'transformations and of the with_parallel_channels / ParallelChannelPT helper arguments add or overwrite INTEGER channel '
+                'ids, incl. 0; they travel to Lean as the atoms #k); grids = piece boundaries, '
                 'boundaries +-1/16, 0, regular grids, strictly inside [0, duration); helper constructors on generated '
                 'templates against the explicit nesting. Non-trivial = a program is produced under a non-default option set '
                 '(or by a helper); distinct by canonical request line')
